@@ -16,3 +16,58 @@ def distinct_enums(ck, u, rule, prefixes, where):
         ck.verdict(not bad, rule, 'enum:' + pre, where,
                    '%d enumerators %s*, pairwise distinct' % (len(vals), pre) if not bad else
                    '%s have the same value: code that tests for one of them also fires for the other' % ' and '.join(bad[0]))
+
+
+class _Reeval:
+    """proxy Check: runs another property's rules and keeps, under a rule id of the calling property, only the instances
+    the caller depends on.  Holds are counted, violations and analysis failures are forwarded with their original text."""
+    def __init__(self, ck, new_rule, accept):
+        self._ck, self._new, self._accept = ck, new_rule, accept
+        self.pid, self.tier, self.level = ck.pid, ck.tier, ck.level
+        self.analysed = ck.analysed
+        self.rules, self.notes, self.assumptions, self.not_decided, self.trusted_base = {}, [], [], [], []
+        self.nhold = 0
+
+    def rule(self, rid, text):
+        pass
+
+    def unit(self, rel):
+        self._ck.unit(rel)
+
+    def function(self, name):
+        self._ck.function(name)
+
+    def floor(self, rule, what, count, minimum):
+        return True
+
+    def holds(self, rule, key, where='', detail='', **extra):
+        if self._accept(rule, key):
+            self.nhold += 1
+
+    def violation(self, rule, key, where='', detail='', **extra):
+        if self._accept(rule, key):
+            return self._ck.violation(self._new, '%s:%s' % (rule, key), where, detail, **extra)
+
+    def broken(self, rule, key, where='', detail='', **extra):
+        if self._accept(rule, key):
+            return self._ck.broken(self._new, '%s:%s' % (rule, key), where, detail, **extra)
+
+    def verdict(self, ok, rule, key, where='', detail='', **extra):
+        return (self.holds if ok else self.violation)(rule, key, where, detail, **extra)
+
+
+def reevaluate(ck, new_rule, module_name, accept, what):
+    """decide under `new_rule` of the calling property the rule instances of another property's module that `accept`
+    selects (the functions / tables the caller's behaviour rests on); `what` says why, for the evidence"""
+    import importlib
+    mod = importlib.import_module('ufwsa.rules.' + module_name)
+    px = _Reeval(ck, new_rule, accept)
+    try:
+        mod.run(px)
+    except Exception as e:                                   # noqa: BLE001
+        ck.broken(new_rule, 'reeval:' + module_name, '', '%s: %s' % (type(e).__name__, e))
+        return
+    if px.nhold == 0:
+        ck.broken(new_rule, 'reeval:' + module_name, '', 'no instance of %s selected (anchor vanished)' % module_name)
+    else:
+        ck.holds(new_rule, 'reeval:' + module_name, '', '%s: %d rule instances of %s re-evaluated and hold' % (what, px.nhold, module_name.upper()))
